@@ -99,6 +99,9 @@ def run_case(case, obs) -> None:  # noqa: C901, PLR0912, PLR0915
     iname_sys = type(m.system).__name__
     how = ["fresh", "pickle", "copy", "deepcopy"][int(case["seed"][-1]) % 4]
 
+    reuse = int(case["seed"][-1]) % 2 == 0
+    shared = []
+
     def measure(n_states, label, shrink=1.0):
         orders, eorders = [], []
         for _state in range(n_states):
@@ -109,7 +112,13 @@ def run_case(case, obs) -> None:  # noqa: C901, PLR0912, PLR0915
             def one_level(j):
                 eps = eps0 / 2**j
                 ispec["step_size"] = eps
-                integ = zoo.make_integrator(m, ispec)
+                if reuse and shared:
+                    # one integrator object whose step size is re-assigned between steps, as the step-size adapters do
+                    integ = shared[0]
+                    integ.step_size = eps
+                else:
+                    integ = zoo.make_integrator(m, ispec)
+                    shared[:] = [integ]
                 st = integ.step(m.used_state(q, p, 1, how))
                 zq, zp = intgen.exact_flow(m, q, p, eps)
                 scale = 1 + max(np.max(np.abs(zq)), np.max(np.abs(zp)))
